@@ -1,4 +1,4 @@
-\* probing phase of a new transfer, every -B class, one pause; real constants, channel capacities 2
+\* protocol 1
 SPECIFICATION Spec
 CONSTANTS
   Floor = 1024
@@ -6,19 +6,20 @@ CONSTANTS
   InitSize = 10240
   HardCap = 1073741824
   BoundFloor = 1048576
-  SendCap = 2
-  AckCap = 2
-  MaxBufs = {1024, 4096, 10240, 40960, 1073741824}
-  Modes = {"bin"}
-  Protos = {4}
-  Secs = {2, 20}
-  MaxChunks = 2
-  P1MaxChunks = 1
-  MaxFiles = 1
-  MaxPauses = 1
+  SendCap = 1
+  AckCap = 1
+  MaxBufs = {1024, 1025, 4096, 10240, 1048576, 1073741823, 1073741824}
+  Modes = {"bin", "b64"}
+  Protos = {1}
+  Secs = {2, 3, 20}
+  MaxChunks = 1
+  P1MaxChunks = 22
+  MaxFiles = 3
+  MaxPauses = 0
   StartSizes = {}
   Variant = "coded"
 INVARIANTS TypeOK SizeInRange ChunksInRange NeverRejectedByReceiver NothingQueuedIsRejected ProbeEndsOnce
   TokenPaired EncoderNotStuck OneChunkWhileProbing DoubleOnlyWhenAllowed ShrinkOnlyWhenSlow
   SuspendedAfterPause ProbeEndedBy
+PROPERTIES Termination
 CHECK_DEADLOCK TRUE
